@@ -5,6 +5,30 @@ HERE=os.path.dirname(os.path.dirname(os.path.abspath(__file__)))
 U=os.path.join(HERE,'seeded','_unconfirmed5')
 # key -> (what the change is, what it needs to manifest, which check / family reports it)
 DESC={
+ "R5_C01_1":("an unknown key hash falls through to the signature check against an all-zero key","well-formed message with an unknown key hash and a degenerate signature (R = small-order point, S = 0): verifies for about one message in four without any key","C01 forged_object (degenerate signatures, added for this seed)"),
+ "R5_C01_2":("handshake state taken out and not restored on the error path","a rejected handshake datagram while a handshake is in progress, then the genuine continuation","C01 forged_node (state_left_behind)"),
+ "R5_C01_3":("password wins over an explicit private key when both are configured","both options set (file + command line)","NOT judged a violation of C01: the node trusts a key its user configured; which of two configured identities wins is not stated anywhere (its author calls it the weakest of the three)"),
+ "R5_C06_1":("received speeds filtered with f32::is_normal (drops 0.0)","a cipher measured at exactly 0 on one side","C06 pairs"),
+ "R5_C06_2":("duplicate suppression assumes ascending cipher ids","configured order that is not ascending","C06 pairs"),
+ "R5_C06_3":("bounded search skips a cipher whose own speed equals the current best","tie on the slower side at the node's own speed","C06 pairs"),
+ "R5_C08_1":("signature sliced out of the input without a length check","datagram filling the receive buffer so that the signature would lie behind its end","C08 datagram (buffer-filling handshake datagrams, added for this seed)"),
+ "R5_C08_2":("missing crypto core treated as 'unencrypted'","non-handshake datagram from an address with a pending handshake","C08 datagram (interface_write)"),
+ "R5_C08_3":("peer liveness refreshed before authentication","noise from a silent peer's address","C08 datagram (state_left_behind)"),
+ "R5_C16_1":("own addresses encoded through the logging helper (un-mapped form)","own address list with an IPv4-mapped or IPv4-compatible IPv6 address","C16 node_info_roundtrip (such addresses added to the generator for this seed)"),
+ "R5_C16_2":("rotation codec omits / tolerates the missing confirmation length byte","message without confirmation followed by stale bytes in the buffer","C16 rotation_roundtrip (stale bytes behind the message, added for this seed)"),
+ "R5_C16_3":("algorithm ids looked up in a table without the catch-all","algorithm id 4 or higher behind a valid key hash","C16 malformed"),
+ "R5_C17_1":("IPv4-mapped IPv6 entries written in the short IPv4 form","address list with ::ffff:a.b.c.d","C17 shapes (mapped and compatible addresses added for this seed)"),
+ "R5_C17_2":("age check via saturating_abs of a signed distance","age 32768 with ttl 32767","C17 age"),
+ "R5_C17_3":("base62 predicate uses char::is_numeric","non-ASCII numeric character between the markers (panic)","C17 texts (such characters added for this seed)"),
+ "R5_C18_1":("keys printed with fixed width and compared as text","generated pair with a numerically small public key, configured as private + public key","C18 passwords"),
+ "R5_C18_2":("trusted-key list deduplicated, own key counted as duplicate","own public key listed next to a foreign one","C18 passwords (own_key_in_trusted_list, added for this seed)"),
+ "R5_C18_3":("node-side password derivation trims whitespace","password with leading or trailing whitespace","C18 password_pairs"),
+ "R5_C19_1":("truncated VLAN tag accepted (zero-padded header copy)","tagged frame of exactly 15 bytes","C19 lengths"),
+ "R5_C19_2":("ethertype 0x88a8 accepted as a VLAN tag","that one ethertype","C19 ethertypes"),
+ "R5_C19_3":("tag-control mask 0x1fff","DEI bit set","C19 address_bytes"),
+ "R5_C20_1":("per-event hook split at every colon","hook script containing a colon","C20 all_options (such scripts added for this seed)"),
+ "R5_C20_2":("--private-key wipes the public key","private and public key together","C20 pairwise"),
+ "R5_C20_3":("legacy (version 1) file conversion: port beats listen","old-format file with both listen and port","NOT covered by C20 as stated (the statement combines defaults, the current file format and the command line; the legacy conversion is not part of it); no check reports it"),
  "R5_C02_1":("the initiator keeps its handshake state for 1 s instead of 60 s","peng and its first repetition lost, then a reliable network: the responder's pong repetitions are no longer answered; both ends recover only after the initiator's peer timeout","NOT a violation of C02 as stated (no payload is altered, unsealed or misdelivered; the outage ends within C05's recovery bound, so C05 is silent too)"),
  "R5_C02_2":("a repeated unconfirmed rotation proposal gets a fresh ECDH key pair","exactly the rotation message carrying the confirmation is lost, two more intervals","reported by C07 (stranded) and C05 node_deviations (payload_lost), whose statements it violates; C02 itself is silent"),
  "R5_C02_3":("broadcast copies into the scratch buffer without resetting its start: 9 bytes of headroom lost per sealed peer","a node with 12 or more sealed peers broadcasts (panic in CryptoCore::encrypt)","C02 large_mesh_delivery / C10 large_mesh (added for this seed)"),
